@@ -146,10 +146,14 @@ class Verifier(Exec):
         #                   //@ ghost @"source text" NAME = expr   (assignment executed when that line is reached)
         self.ghost_vars = []
         self.ghost_updates = []
+        self.ghost_after = []
         for g_ in spec.opts.get('ghost', []):
-            mu_ = re.match(r'^@"(.*?)"\s+(\w+)\s*=\s*(.*)$', g_)
-            if mu_:
-                self.ghost_updates.append((mu_.group(1), mu_.group(2), mu_.group(3).split(' -- ')[0].strip()))
+            mu_ = re.match(r'^@(after)?"(.*?)"\s+(\w+)\s*=\s*(.*)$', g_)
+            if mu_ and mu_.group(1):
+                # //@ ghost @after"source text" NAME = expr : executed when the path leaves that line
+                self.ghost_after.append((mu_.group(2), mu_.group(3), mu_.group(4).split(' -- ')[0].strip()))
+            elif mu_:
+                self.ghost_updates.append((mu_.group(2), mu_.group(3), mu_.group(4).split(' -- ')[0].strip()))
             else:
                 self.ghost_vars.append(g_.split()[0])
         self.track_init = any('init' in x.split() for x in spec.opts.get('track', []))
@@ -334,6 +338,14 @@ class Verifier(Exec):
                 self.ctx.assume(forall([a, b], implies(and_(le(ZERO, a), le(ZERO, b)), and_(le(a, t), le(b, t), le(t, add(a, b)))), [t]))
             elif name == 'bandnot':
                 self.ctx.assume(forall([a, b], implies(and_(le(ZERO, a), le(ZERO, b)), and_(le(ZERO, t), le(t, a))), [t]))
+        if name in ('bor', 'bandnot') and y.is_int() and y.val > 0 and (y.val & (y.val - 1)) != 0 and bin(y.val).count('1') <= 8:
+            # a constant mask of several bits is the same as setting / clearing its bits one after the other
+            # (lowest first): a ground fact about this application, so `x &^ (A|B)` and `(x &^ A) &^ B` agree
+            c_ = x
+            for k_ in range(y.val.bit_length()):
+                if (y.val >> k_) & 1:
+                    c_ = app(name, (c_, I(1 << k_)), INT)
+            self.ctx.assume(eq(r, c_))
         return r
 
     # ------------------------------------------------------------------ spec functions
@@ -1022,6 +1034,12 @@ class Verifier(Exec):
                     h8_ = self.heap_get(st, 'HS:uint8', arr(ARR_II))
                     self.ctx.declare_fun('sf:nrunes', [ARR_II, INT, INT], INT)
                     self.ctx.assume(eq(app('sf:nrunes', (select(h8_, r_.arr), r_.off, r_.len), INT), x.len))
+                # UTF-8: one to four bytes per rune, exactly one for ASCII
+                self.ctx.assume(and_(le(x.len, r_.len), le(r_.len, mul(I(4), x.len))))
+                if x.len.is_int() and x.len.val <= 8:
+                    rh_ = select(self.heap_get(st, self.hs_name(x.elem), self.hs_sort(x.elem)), x.arr)
+                    es_ = [select(rh_, add(x.off, I(i_))) for i_ in range(x.len.val)]
+                    self.ctx.assume(implies(and_(*[and_(le(ZERO, e_), lt(e_, I(128))) for e_ in es_]), eq(r_.len, x.len)))
                 return r_
             if isinstance(x, T):
                 return self.opaque_string(st, 'rune2str', [x])
@@ -2069,6 +2087,28 @@ class Verifier(Exec):
                 self.cur_detail = 'anchor'
                 self.apply_use(cl, st, env)
 
+    def ghost_after_line(self, st, line):
+        if self.srclines is None:
+            try:
+                self.srclines = open(self.fn['file']).read().split('\n')
+            except (IOError, KeyError):
+                self.srclines = []
+        if line - 1 >= len(self.srclines):
+            return
+        text = self.srclines[line - 1]
+        for on_, nn_ in (getattr(self, 'local_alias', None) or {}).items():
+            text = re.sub(r'\b%s\b' % re.escape(nn_), on_, text)
+        for anchor_, gname_, gexpr_ in getattr(self, 'ghost_after', None) or []:
+            if anchor_ in text:
+                env = dict(self.spec_env(self.scope_at_line(line)))
+                st.ghost['gv:' + gname_] = self.ctx.name('gv:' + gname_, SpecEval(self, st, env, self.old, 'ghost ' + gname_).term(parse_expr(gexpr_)))
+        for anchor_, cl_, full_ in getattr(self.spec, 'libfacts', None) or []:
+            if anchor_ in text:
+                env = dict(self.spec_env(self.scope_at_line(line)))
+                self.ctx.assume(implies(st.pc, SpecEval(self, st, env, self.old, 'libfact').boolean(cl_.expr)))
+                self.trusted.add('assumed fact about a library result in %s after `%s`: %s' % (short_fn(self.fname), anchor_, full_))
+                self.libfacts_hit = getattr(self, 'libfacts_hit', set()) | {anchor_}
+
     def scope_at_line(self, line):
         best = None
         for lp in (self.fn.get('loops') or []):
@@ -2083,6 +2123,8 @@ class Verifier(Exec):
         if ln and ln != self.last_anchor_line.get(blk['index']):
             self.last_anchor_line[blk['index']] = ln
             self.anchors_at(st, ln)
+        if ln and (getattr(self, 'ghost_after', None) or getattr(self.spec, 'libfacts', None)) and st.ghost.get('py:line') not in (None, ln):
+            self.ghost_after_line(st, st.ghost['py:line'])
         if ln:
             st.ghost['py:line'] = ln
         self.cur_line = ins.get('line') or self.cur_line
